@@ -168,9 +168,11 @@ type caseDesc struct {
 	Err      string          `json:"err,omitempty"`
 	// a step of a sequence on ONE caching client: the whole sequence (to re-run it) and the position of this step
 	// table columns the user declared up front for required bookkeeping fields (with no entry under `block`)
-	Pre  []string  `json:"predeclared,omitempty"`
-	Seq  []seqStep `json:"seq,omitempty"`
-	Step int       `json:"step,omitempty"`
+	Pre []string `json:"predeclared,omitempty"`
+	// every selected field is stored under a column named c_<field> instead of <field>
+	Renamed bool      `json:"renamed,omitempty"`
+	Seq     []seqStep `json:"seq,omitempty"`
+	Step    int       `json:"step,omitempty"`
 }
 
 // one Get + Insert of a sequence
@@ -263,10 +265,17 @@ func runCase(e *env, sel []string, withEvent bool, ss *session) (caseDesc, strin
 			ig.Table.Columns = append(ig.Table.Columns, wpg.Column{Name: n, Type: preType[n]})
 		}
 	}
+	d.Renamed = renameCols
+	colName := map[string]string{} // field -> column bound to it
 	for _, s := range sel {
-		ig.Block = append(ig.Block, dig.BlockData{Name: s, Column: s})
-		if !hasCol(s) {
-			ig.Table.Columns = append(ig.Table.Columns, wpg.Column{Name: s, Type: fieldByName(s).typ})
+		cn := s
+		if renameCols {
+			cn = "c_" + s
+		}
+		colName[s] = cn
+		ig.Block = append(ig.Block, dig.BlockData{Name: s, Column: cn})
+		if !hasCol(cn) {
+			ig.Table.Columns = append(ig.Table.Columns, wpg.Column{Name: cn, Type: fieldByName(s).typ})
 		}
 	}
 	ig.AddRequiredFields()
@@ -371,7 +380,10 @@ func runCase(e *env, sel []string, withEvent bool, ss *session) (caseDesc, strin
 		}
 	}
 	d.WantRows, d.Rows = len(items), len(conn.rows)
-	col := func(name string) int {
+	col := func(name string) int { // position of the column bound to field `name`
+		if cn, ok := colName[name]; ok {
+			name = cn
+		}
 		for i, c := range conn.cols {
 			if c == name {
 				return i
@@ -494,6 +506,15 @@ var preType = map[string]string{"ig_name": "text", "src_name": "text", "block_nu
 var preNames = []string{"ig_name", "src_name", "block_num", "tx_idx", "log_idx", "abi_idx", "trace_action_idx"}
 var predeclare []string
 
+// renameCols: the selected fields are stored under columns named c_<field>
+var renameCols bool
+
+func addRenamed(out *lib.Out, e *env, sel []string, withEvent bool, kind string) {
+	renameCols = true
+	defer func() { renameCols = false }()
+	add(out, e, sel, withEvent, kind)
+}
+
 // addPre: one case with table columns pre-declared
 func addPre(out *lib.Out, e *env, sel []string, withEvent bool, kind string, pre []string) {
 	predeclare = pre
@@ -611,7 +632,7 @@ func runC14(cfg Cfg) error {
 	e := newEnv()
 	defer e.node.Close()
 	out := lib.NewOut("C14", cfg.Out, c14Header, "run", 100)
-	out.Rule = "dig.New(config.AddRequiredFields(sel)).Filter() -> jrpc2.Client.Get against the scripted node (every field of every item distinct and non-zero) -> Integration.Insert into a Go-level wpg.Conn capturing CopyFrom: every selectable field alone, ALL unordered pairs exhaustively, one representative set per subset of membership classes, random larger sets; the same with table.columns pre-declaring the required bookkeeping columns (ig_name src_name block_num tx_idx log_idx abi_idx trace_action_idx: each singly and all together for every single field, all together for a sample of pairs and class representatives) while `block` does not list them; without an event (transaction / trace rows) and with an event (log rows); 52 sequences of 2-3 integrations with different plans over the same range on ONE caching client (every ordered pair within the plans sharing the header cache and within those sharing the block cache, mixed triples), and sequences [X with one of its requests failing once; another plan Y; retry of X] for every plan X, every request kind of X, three Y; and [X with a soft fault in one reply (result null, error member; empty list for traces) ; retry of X]. Oracle: every stored column of every row equals the node's value for that item and the number of rows equals the number of items. Model-diff: required fields, requests seen by the node = dispatch(glf.New), observed supplied-matrix = Provides. non-trivial = at least one non-context field selected"
+	out.Rule = "dig.New(config.AddRequiredFields(sel)).Filter() -> jrpc2.Client.Get against the scripted node (every field of every item distinct and non-zero) -> Integration.Insert into a Go-level wpg.Conn capturing CopyFrom: every selectable field alone, ALL unordered pairs exhaustively, one representative set per subset of membership classes, random larger sets; the same with table.columns pre-declaring the required bookkeeping columns (ig_name src_name block_num tx_idx log_idx abi_idx trace_action_idx: each singly and all together for every single field, all together for a sample of pairs and class representatives) while `block` does not list them; the same streams with every selected field stored under a column named c_<field> (every single, a sample of pairs and class representatives); without an event (transaction / trace rows) and with an event (log rows); 52 sequences of 2-3 integrations with different plans over the same range on ONE caching client (every ordered pair within the plans sharing the header cache and within those sharing the block cache, mixed triples), and sequences [X with one of its requests failing once; another plan Y; retry of X] for every plan X, every request kind of X, three Y; and [X with a soft fault in one reply (result null, error member; empty list for traces) ; retry of X]. Oracle: every stored column of every row equals the node's value for that item and the number of rows equals the number of items. Model-diff: required fields, requests seen by the node = dispatch(glf.New), observed supplied-matrix = Provides. non-trivial = at least one non-context field selected"
 	if cfg.Replay != "" {
 		raw, err := os.ReadFile(cfg.Replay)
 		if err != nil {
@@ -632,7 +653,9 @@ func runC14(cfg Cfg) error {
 		if len(d.Seq) > 0 {
 			addSeq(out, e, d.Seq, "replay-sequence")
 		} else {
+			renameCols = d.Renamed
 			addPre(out, e, d.Sel, d.Mode == "log", "replay", d.Pre)
+			renameCols = false
 		}
 		return out.Flush()
 	}
@@ -776,6 +799,18 @@ func runC14(cfg Cfg) error {
 			bothPre([]*fieldDef{f}, "single-predeclared", pre)
 		}
 	}
+	// column name != field name: every single field (the bookkeeping fields block_num / tx_idx / log_idx /
+	// trace_action_idx included: the user maps them to another column), a sample of pairs and class representatives
+	bothRenamed := func(sel []*fieldDef, kind string) {
+		for _, ev := range []bool{false, true} {
+			if s, ok := valid(sel, ev); ok {
+				addRenamed(out, e, s, ev, kind)
+			}
+		}
+	}
+	for _, f := range names {
+		bothRenamed([]*fieldDef{f}, "single-renamed")
+	}
 	// all pairs, exhaustively
 	npairs := 0
 	for i := range names {
@@ -783,6 +818,9 @@ func runC14(cfg Cfg) error {
 			both([]*fieldDef{names[i], names[j]}, "pair")
 			if npairs%7 == int(cfg.Seed)%7 {
 				bothPre([]*fieldDef{names[i], names[j]}, "pair-predeclared", preNames)
+			}
+			if npairs%5 == (int(cfg.Seed)+2)%5 {
+				bothRenamed([]*fieldDef{names[i], names[j]}, "pair-renamed")
 			}
 			npairs++
 		}
@@ -811,6 +849,9 @@ func runC14(cfg Cfg) error {
 		both(sel, "class-subset")
 		if mask%8 == int(cfg.Seed)%8 {
 			bothPre(sel, "class-subset-predeclared", preNames)
+		}
+		if mask%6 == (int(cfg.Seed)+3)%6 {
+			bothRenamed(sel, "class-subset-renamed")
 		}
 		nsub++
 	}
